@@ -99,3 +99,20 @@ def _pm_smear(case, v):
     return v["family"] in ("as/disp", "as/vonmises", "as/CM", "as/sec_forces", "as/CL", "as/CD", "as/fuelburn", "as/L_equals_W", "as/total_cg",
                            "as/surface_CDi", "as/surface_CDv", "as/surface_CL1", "as/failure_exact_on_half", "as/failure_ks_relation",
                            "as/S_ref") and e / tol < 1e3
+
+
+# ---------------------------------------------------------------------------------------------- C07
+@predicate("wingbox_vm_right_half")
+def _wb_vm(case, v):
+    # VonMisesWingbox takes the bending/shear stresses of every element at its node 1, which is the inboard end on the left half
+    # and the outboard end on the right half of a full-span wing: stresses (and failure) of a mirror-symmetric full-span wingbox
+    # are not mirror symmetric, and a wing and its mirror image report different stresses.
+    t = _tags(v)
+    return case.get("kind") in ("as_symmetric", "as_reflect") and "wingbox" in t and "vonmises" in t and v["family"].split("/")[1] in ("vonmises", "failure")
+
+
+@predicate("dv_on_right_half_mesh")
+def _dv_right(case, v):
+    # Sweep, Dihedral and Taper take the root of a symmetric surface to be the LAST spanwise node (y0 = le[-1, 1], xp = [-span, 0]);
+    # on a right-half mesh (root first) they act with the wrong sense / not at all.
+    return case.get("kind") == "dv_halves" and case.get("dv") in ("sweep", "dihedral", "taper") and v["family"] == "dv_halves/mesh"
